@@ -14,6 +14,7 @@
 using namespace drv;
 namespace cc = cds::container;
 static CdsInit s_init;
+bool drv::g_cs_points = false;
 size_t drv::item_hash::hash_of(int k) { return (size_t)k; }
 typedef cds::urcu::gc<cds::urcu::general_buffered<cds::urcu::general_buffered<>::buffer_type, std::mutex, cds::backoff::yield>> RCU;
 struct RcuFix { RCU rcu; RcuFix() : rcu(2) { attach(); } ~RcuFix() { detach(); } };
